@@ -321,7 +321,7 @@ pub fn ill_strategy() -> impl Strategy<Value = Ill> {
 }
 
 pub fn run(cx: &Ctx) {
-    cx.set_rule("cases = ill-conditioned sequences with NO restriction on kappa: magnitudes 10^U(-300,150), relative spreads of 1e-15, one-ulp spreads, a large value mixed with values 1e-20 times smaller, subnormals, offsets 1e15 times the spread, negative near-constant data; n up to 500; all chunkings and merge trees, the pair estimators additionally through the eight ingestion paths of C08 (add, collect, extend, collect+continue); Mean, Variance, Skewness, Kurtosis, Moments4, Covariance (independent ill-conditioned y), WeightedMean/WeightedMeanWithError (weights >= 0, total > 0, zero weights placed as in C08, one case in four with all weights scaled by 2^-200 … 2^200). Oracle = sign/range predicates only: every defined variance >= 0 (NaN is a violation), error() not NaN, min - tol <= mean <= max + tol with tol = 8 n u max|x| + n 2^-1074 (weighted mean: 16, range and max over the observations with positive weight), 1 <= effective_len <= len() up to n 2^-50; plus random bin counts: variance(i), variances() in [0, total/4] up to rounding. Non-trivial = kappa > 1e12 or spread <= 4 ulp or |x| < 1e-300 or |x| > 1e100; distinct = hash of the inputs");
+    cx.set_rule("cases = ill-conditioned sequences with NO restriction on kappa: magnitudes 10^U(-300,150), relative spreads of 1e-15, one-ulp spreads, a large value mixed with values 1e-20 times smaller, subnormals, offsets 1e15 times the spread, negative near-constant data; n up to 500; all chunkings and merge trees, plus the targeted family 'a run of tied values merged with one observation 1..3 ulps away', the pair estimators additionally through the eight ingestion paths of C08 (add, collect, extend, collect+continue); Mean, Variance, Skewness, Kurtosis, Moments4, Covariance (independent ill-conditioned y), WeightedMean/WeightedMeanWithError (weights >= 0, total > 0, zero weights placed as in C08, one case in four with all weights scaled by 2^-200 … 2^200). Oracle = sign/range predicates only: every defined variance >= 0 (NaN is a violation), error() not NaN, min - tol <= mean <= max + tol with tol = 8 n u max|x| + n 2^-1074 (weighted mean: 16, range and max over the observations with positive weight), 1 <= effective_len <= len() up to n 2^-50; plus random bin counts: variance(i), variances() in [0, total/4] up to rounding. Non-trivial = kappa > 1e12 or spread <= 4 ulp or |x| < 1e-300 or |x| > 1e100; distinct = hash of the inputs");
     cx.assume("overflow is outside the property: |x| <= 1e150 with n <= 500 keeps n^2*4*max|x|^2 below f64::MAX in the merge formulas");
     cx.label("fixed");
     cx.run_list(&Signs, vec![
@@ -331,6 +331,29 @@ pub fn run(cx: &Ctx) {
     ], "K1 reproducer and a plain offset triple");
     cx.label("generated");
     cx.run_pt(&Signs, cx.by(10000, 600000), cx.workers, ill_strategy, "7 kinds of ill-conditioned data x n 1..500 x magnitudes 1e-300..1e150 x merge trees");
+    // a run of k tied values merged with a single observation a few ulps away (and the mirror image): the
+    // rounded merged mean can land one ulp outside the interval of the two chunk means, which turns any
+    // update of the form (x - old_mean) * (x - new_mean) negative. Rare per case (about one (a, k) pair in
+    // 5000), hence many small cases.
+    cx.label("tied-run-plus-singleton");
+    let tied = || {
+        (any::<u64>(), -300i32..300, 1usize..60, 1u64..4, any::<bool>(), any::<bool>(), 0u8..super::c08::PATHS).prop_map(|(mant, e, k, ulps, above, single_right, path)| {
+            let a = (1.0 + (mant >> 12) as f64 / (1u64 << 52) as f64) * 2f64.powi(e);
+            let x = f64::from_bits(if above { a.to_bits() + ulps } else { a.to_bits() - ulps });
+            let mut xs = vec![a; k];
+            let cuts = if single_right {
+                xs.push(x);
+                vec![k]
+            } else {
+                xs.insert(0, x);
+                vec![1]
+            };
+            let n = xs.len();
+            Ill { ys: xs.iter().rev().copied().collect(), ws: vec![1.0; n], xs, cuts, merges: vec![0], path }
+        })
+    };
+    cx.run_pt(&Signs, cx.by(20000, 400000), cx.workers, tied, "k in 1..60 copies of a random a (any binade 2^-300..2^300) and one value 1..3 ulps away, merged as (run | singleton) or (singleton | run)");
+    cx.label("generated");
     let counts = || {
         (vec(prop_oneof![2 => Just(0u64), 3 => 0u64..10, 2 => 0u64..100000, 1 => 0u64..(1u64 << 40)], 10), 0u8..4, 0usize..10).prop_map(|(mut counts, mode, keep)| {
             // mode 0: all samples in a single bin (the extreme of the [0, total/4] range)
